@@ -388,7 +388,226 @@ class Normalizer:
         return block or [ast.Pass()]
 
     # ------------------------------------------------------------------ driver
+    def _rename_private_fields(self):
+        """A class in which exactly one private field of the reference tree (`baseline.json: fields`) no longer occurs and exactly
+        one private field that the reference tree does not have occurs instead has renamed it: the new name is replaced by the
+        reference name everywhere (inside the class `self.__new`, outside `x._C__new`, and in string constants `'_C__new'`), so
+        that the rules, which anchor on the reference names, read the same program.  Any other difference (two renamed at once,
+        a field added next to the old ones, one dropped without replacement) is left alone."""
+        ref = self.base.get('fields') or {}
+        for modname, tree in self.trees.items():
+            for st in tree.body:
+                if not isinstance(st, ast.ClassDef) or st.name not in ref:
+                    continue
+                methods = {d.name for d in st.body if isinstance(d, ast.FunctionDef)}
+                cur = {n.attr for n in ast.walk(st) if isinstance(n, ast.Attribute) and n.attr.startswith('__')
+                       and not n.attr.endswith('__') and n.attr not in methods}
+                cur |= {t.id for d in st.body if isinstance(d, (ast.Assign, ast.AnnAssign))
+                        for t in (d.targets if isinstance(d, ast.Assign) else [d.target])
+                        if isinstance(t, ast.Name) and t.id.startswith('__') and not t.id.endswith('__')}
+                gone, new = set(ref[st.name]) - cur, cur - set(ref[st.name])
+                if len(gone) != 1 or len(new) != 1:
+                    continue
+                old_name, new_name = next(iter(gone)), next(iter(new))
+                pre = '_' + st.name.lstrip('_')
+                for n in ast.walk(st):
+                    if isinstance(n, ast.Attribute) and n.attr == new_name:
+                        n.attr = old_name
+                    elif isinstance(n, ast.Name) and n.id == new_name:
+                        n.id = old_name
+                for t in self.trees.values():
+                    for n in ast.walk(t):
+                        if isinstance(n, ast.Attribute) and n.attr == pre + new_name:
+                            n.attr = pre + old_name
+                        elif isinstance(n, ast.Constant) and n.value == pre + new_name:
+                            n.value = pre + old_name
+                        elif isinstance(n, ast.keyword) and n.arg == pre + new_name:
+                            n.arg = pre + old_name
+                self.log.append(f"private field {st.name}.{new_name} read as the reference tree's {old_name} (renamed)")
+
+    def _rename_underscore_variants(self):
+        """A private module-level function / constant or a private method of the reference tree that is gone while a new private
+        one whose name differs from it only in the number of leading underscores (`__parse_date` -> `_parse_date`) exists in the
+        same scope has been renamed: it is given its reference name back (definition and every reference in the module / class).
+        Skipped when the old name is still used for something, or when the new name is referenced from outside its scope."""
+        fns = self.base['functions']
+        consts = self.base.get('constants') or {}
+
+        def variants(new, ref_names, defined):
+            if not new.startswith('_') or new.endswith('__') or new in ref_names:
+                return None
+            c = [r for r in ref_names if r not in defined and r.startswith('_') and not r.endswith('__')
+                 and r.lstrip('_') == new.lstrip('_')]
+            return c[0] if len(c) == 1 else None
+
+        for modname, tree in self.trees.items():
+            # ---- module level
+            ref = {q[len(modname) + 1:] for q in fns if q.startswith(modname + '.') and '.' not in q[len(modname) + 1:]}
+            ref |= set(consts.get(modname, []))
+            defined = {st.name for st in tree.body if isinstance(st, ast.FunctionDef)}
+            defined |= {t.id for st in tree.body if isinstance(st, (ast.Assign, ast.AnnAssign))
+                        for t in (st.targets if isinstance(st, ast.Assign) else [st.target]) if isinstance(t, ast.Name)}
+            all_names = {n.id for n in ast.walk(tree) if isinstance(n, ast.Name)}
+            for new in sorted(defined):
+                old_name = variants(new, ref, defined)
+                if old_name is None or old_name in all_names:
+                    continue
+                if any(isinstance(n, ast.ImportFrom) and any(a.name == new for a in n.names)
+                       for t in self.trees.values() for n in ast.walk(t)):
+                    continue
+                for n in ast.walk(tree):
+                    if isinstance(n, ast.Name) and n.id == new:
+                        n.id = old_name
+                    elif isinstance(n, ast.FunctionDef) and n.name == new and n in tree.body:
+                        n.name = old_name
+                self.log.append(f"{modname}.{new} read as the reference tree's {old_name} (renamed)")
+            # ---- methods
+            for st in tree.body:
+                if not isinstance(st, ast.ClassDef):
+                    continue
+                pre = f"{modname}.{st.name}."
+                ref = {q[len(pre):] for q in fns if q.startswith(pre) and '.' not in q[len(pre):]}
+                defined = {d.name for d in st.body if isinstance(d, ast.FunctionDef)}
+                inside = {id(n) for n in ast.walk(st)}
+                for new in sorted(defined):
+                    old_name = variants(new, ref, defined)
+                    if old_name is None:
+                        continue
+                    if any(isinstance(n, ast.Attribute) and (n.attr == old_name or (n.attr == new and id(n) not in inside))
+                           for t in self.trees.values() for n in ast.walk(t)):
+                        continue
+                    for n in ast.walk(st):
+                        if isinstance(n, ast.Attribute) and n.attr == new:
+                            n.attr = old_name
+                        elif isinstance(n, ast.FunctionDef) and n.name == new and n in st.body:
+                            n.name = old_name
+                    self.log.append(f"{modname}.{st.name}.{new} read as the reference tree's {old_name} (renamed)")
+
+    def _fold_running_extremum(self):
+        """`acc = INIT; for v in X: [if E is None: continue]; if E > acc: acc = E` (also `acc < E`, `>=`, `acc = max(acc, E)`, the
+        None test as an enclosing `if E is not None:` or as the first conjunct, `<` / `min` for the minimum) is the statement
+        `acc = max([E for v in X if E is not None] + [INIT])` written as a loop (round 11: REF-C07-r112).  Folded only when the
+        loop body is exactly that, `acc` and `v` are plain names, E does not mention `acc` and `v` is not read after the loop."""
+        def is_none_test(t, want_none):
+            if isinstance(t, ast.Compare) and len(t.ops) == 1 and isinstance(t.comparators[0], ast.Constant) and \
+                    t.comparators[0].value is None and isinstance(t.ops[0], ast.Is if want_none else ast.IsNot):
+                return t.left
+            if not want_none and isinstance(t, ast.UnaryOp) and isinstance(t.op, ast.Not):
+                return is_none_test(t.operand, True)
+            return None
+
+        def same(a, b):
+            return ast.dump(a) == ast.dump(b)
+
+        def update(st, acc):
+            """(E, 'max'|'min') when st is `if E > acc: acc = E` / `acc = max(acc, E)` .."""
+            if isinstance(st, ast.If) and not st.orelse and len(st.body) == 1 and isinstance(st.body[0], ast.Assign) and \
+                    len(st.body[0].targets) == 1 and isinstance(st.body[0].targets[0], ast.Name) and \
+                    st.body[0].targets[0].id == acc and isinstance(st.test, ast.Compare) and len(st.test.ops) == 1:
+                e = st.body[0].value
+                l, op, r = st.test.left, st.test.ops[0], st.test.comparators[0]
+                if isinstance(r, ast.Name) and r.id == acc and same(l, e):
+                    kind = 'max' if isinstance(op, (ast.Gt, ast.GtE)) else 'min' if isinstance(op, (ast.Lt, ast.LtE)) else None
+                elif isinstance(l, ast.Name) and l.id == acc and same(r, e):
+                    kind = 'max' if isinstance(op, (ast.Lt, ast.LtE)) else 'min' if isinstance(op, (ast.Gt, ast.GtE)) else None
+                else:
+                    kind = None
+                return (e, kind) if kind else None
+            if isinstance(st, ast.Assign) and len(st.targets) == 1 and isinstance(st.targets[0], ast.Name) and \
+                    st.targets[0].id == acc and isinstance(st.value, ast.Call) and isinstance(st.value.func, ast.Name) and \
+                    st.value.func.id in ('max', 'min') and len(st.value.args) == 2 and not st.value.keywords:
+                a, b = st.value.args
+                if isinstance(a, ast.Name) and a.id == acc:
+                    return b, st.value.func.id
+                if isinstance(b, ast.Name) and b.id == acc:
+                    return a, st.value.func.id
+            return None
+
+        def loop_form(loop, acc):
+            """(E, kind, filtered) for a matching loop"""
+            body = list(loop.body)
+            guard = None
+            if len(body) == 2 and isinstance(body[0], ast.If) and not body[0].orelse and len(body[0].body) == 1 and \
+                    isinstance(body[0].body[0], ast.Continue):
+                guard = is_none_test(body[0].test, True)
+                if guard is None:
+                    return None
+                body = body[1:]
+            if len(body) != 1:
+                return None
+            st = body[0]
+            if guard is None and isinstance(st, ast.If) and not st.orelse:
+                g = is_none_test(st.test, False)
+                if g is not None and len(st.body) == 1:
+                    guard, st = g, st.body[0]
+                elif isinstance(st.test, ast.BoolOp) and isinstance(st.test.op, ast.And) and len(st.test.values) == 2:
+                    g = is_none_test(st.test.values[0], False)
+                    if g is not None:
+                        guard = g
+                        st = ast.If(test=st.test.values[1], body=st.body, orelse=[])
+            u = update(st, acc)
+            if u is None:
+                return None
+            e, kind = u
+            if guard is not None and not same(guard, e):
+                return None
+            if any(isinstance(n, ast.Name) and n.id == acc for n in ast.walk(e)):
+                return None
+            return e, kind, guard is not None
+
+        def reads_after(stmts, v):
+            for st in stmts:
+                if isinstance(st, ast.For) and isinstance(st.target, ast.Name) and st.target.id == v and \
+                        not any(isinstance(n, ast.Name) and n.id == v for n in ast.walk(st.iter)):
+                    continue
+                bound = set()
+                for n in ast.walk(st):
+                    if isinstance(n, (ast.ListComp, ast.SetComp, ast.GeneratorExp, ast.DictComp)) and any(
+                            isinstance(t, ast.Name) and t.id == v for g in n.generators for t in ast.walk(g.target)):
+                        bound |= {id(x) for x in ast.walk(n)}
+                if any(isinstance(n, ast.Name) and n.id == v and isinstance(n.ctx, ast.Load) and id(n) not in bound
+                       for n in ast.walk(st)):
+                    return True
+            return False
+
+        def fold(stmts):
+            i = 0
+            while i + 1 < len(stmts):
+                a, loop = stmts[i], stmts[i + 1]
+                if isinstance(a, ast.Assign) and len(a.targets) == 1 and isinstance(a.targets[0], ast.Name) and \
+                        isinstance(loop, ast.For) and not loop.orelse and isinstance(loop.target, ast.Name):
+                    acc, v = a.targets[0].id, loop.target.id
+                    f = loop_form(loop, acc) if acc != v else None
+                    if f is not None and not reads_after(stmts[i + 2:], v) and \
+                            not any(isinstance(n, ast.Name) and n.id in (acc,) for n in ast.walk(loop.iter)):
+                        e, kind, filtered = f
+                        comp = ast.ListComp(elt=copy.deepcopy(e), generators=[ast.comprehension(
+                            target=ast.Name(id=v, ctx=ast.Store()), iter=loop.iter,
+                            ifs=[ast.Compare(left=copy.deepcopy(e), ops=[ast.IsNot()], comparators=[ast.Constant(value=None)])]
+                            if filtered else [], is_async=0)])
+                        new = ast.Assign(targets=[ast.Name(id=acc, ctx=ast.Store())], value=ast.Call(
+                            func=ast.Name(id=kind, ctx=ast.Load()),
+                            args=[ast.BinOp(left=comp, op=ast.Add(), right=ast.List(elts=[a.value], ctx=ast.Load()))], keywords=[]))
+                        ast.copy_location(new, a)
+                        for n in ast.walk(new):
+                            if not hasattr(n, 'lineno'):
+                                ast.copy_location(n, a)
+                        stmts[i:i + 2] = [new]
+                        self.log.append(f"running {kind} loop over `{v}` folded into `{acc} = {kind}([..] + [..])` (line {a.lineno})")
+                        continue
+                i += 1
+
+        for tree in self.trees.values():
+            for n in ast.walk(tree):
+                for fld in ('body', 'orelse', 'finalbody'):
+                    b = getattr(n, fld, None)
+                    if isinstance(b, list) and b and isinstance(b[0], ast.stmt):
+                        fold(b)
+
     def run(self, rounds: int = 4):
+        self._rename_private_fields()
+        self._rename_underscore_variants()
+        self._fold_running_extremum()
         for _ in range(rounds):
             changed = False
             for modname, tree in self.trees.items():
